@@ -40,6 +40,23 @@ def parseAll : List Bytes → Option (List SigLine)
     | some p, some ps => some (p :: ps)
     | _, _ => none
 
+/-- the signature a signer contributes to `Sign` over text `t` (`none` if its Sign fails) -/
+def sigOfSigner (t : Bytes) (s : Signer) : Option Signature :=
+  (s.sign t).map fun x => ⟨s.name, s.hash, b64enc (putU32 s.hash ++ x)⟩
+
+def sigKnown (known : Verifiers) (g : Signature) : Bool :=
+  match known g.name g.hash with
+  | .found _ => true
+  | _ => false
+
+def sigUnknown (known : Verifiers) (g : Signature) : Bool :=
+  match known g.name g.hash with
+  | .unknown => true
+  | _ => false
+
+/-- the signature block: one line "— name base64\n" per signature -/
+def blockOf (gs : List Signature) : Bytes := gs.flatMap fun g => lineOf g ++ [10]
+
 /-- valid note text: UTF-8, no ASCII control character other than newline, ends in newline -/
 def ValidText (t : Bytes) : Prop := validMsg t = true ∧ t.getLast? = some 10
 
